@@ -848,6 +848,8 @@ class PX:
         live = cfg.liveness() if loops else {}
         # only locals that are live at the loop header carry information across iterations
         modified = {h: (cfg.modified_locals(bs) & (live.get(h, set()) | {0})) for h, bs in loops.items()}
+        if top:
+            self._modfields = {h: cfg.modified_fields(bs) for h, bs in loops.items()}
         fid = self.new_frame(st)
         self.visited_fns.add(fn)
         for i, a in enumerate(args):
@@ -1047,6 +1049,11 @@ class PX:
             if l not in env or l <= 0:
                 continue
             a = self.abstract(st, env[l], (l,))
+            mf = getattr(self, '_modfields', {}).get(header, {}).get(l)
+            v0 = env[l]
+            if l in modified and mf and isinstance(v0, tuple) and v0 and v0[0] == 'adt' and a[0] == 'adt' and len(v0[3]) == len(a[3]) and max(mf) < len(v0[3]):
+                # a struct of which the loop writes some fields only: the other fields keep their value (and what is known about it)
+                a = ('adt', a[1], a[2], tuple(a[3][i] if i in mf else ('keep', v0[3][i]) for i in range(len(a[3]))))
             # the head node is identified by the abstract value of every live local; only the loop-modified ones are forgotten
             keyparts.append((l, self.strip_uids(a)))
             if l in modified:
@@ -1094,6 +1101,8 @@ class PX:
             if a[4] is not None:
                 carried.append((('has', it, el), a[4]))
             return v
+        if isinstance(a, tuple) and a and a[0] == 'keep':
+            return a[1]
         if isinstance(a, tuple) and a and a[0] == 'adt':
             return ('adt', a[1], a[2], tuple(self.instantiate(st, x, carried) for x in a[3]))
         if isinstance(a, tuple) and a and a[0] == 'tuple':
